@@ -118,6 +118,17 @@ func (in *Interp) ret(st *State, results []ast.Expr, pos token.Pos) {
 			}
 		}
 	}
+	// the comma-ok convention: (nil, false) is the failure exit of a lookup that reports "not found" through a
+	// boolean instead of an error
+	if !r.IsErr && len(rts) >= 2 && len(r.Vals) == len(rts) {
+		if b, ok := rts[len(rts)-1].Underlying().(*types.Basic); ok && b.Kind() == types.Bool {
+			if bv, ok := r.Vals[len(r.Vals)-1].(BoolV); ok && bv.Cond == "false" {
+				if _, isNil := r.Vals[0].(NilV); isNil {
+					r.IsErr = true
+				}
+			}
+		}
+	}
 	in.syncCursors(st)
 	r.St = st.clone()
 	in.Rets = append(in.Rets, r)
